@@ -53,20 +53,40 @@ Section LGuards.
     unfold feasible. apply negb_true_iff, andb_false_iff. destruct Hq; [left; apply Nat.leb_gt|right; apply Nat.ltb_ge]; lia.
   Qed.
 
-  (* both guards passed: the call is its body *)
-  Lemma linker_solve_t_guards_passed sel o t s :
-    min_iter o <= max_iter o -> guard_t s t = false -> solve_t sel o t s = body sel o t s.
-  Proof.
-    intros H G. unfold Linker.linker_solve_t_M. replace (max_iter o <? min_iter o) with false by lia. rewrite G. reflexivity.
-  Qed.
+  Notation seed := (linker_seed num zero).
 
-  (* the three ways a call can go *)
-  Lemma linker_solve_t_cases sel o t s :
-    solve_t sel o t s = (s, LRaise (LExn ValueError)) \/ solve_t sel o t s = (s, LRaise (LExn IndexError)) \/
-    (min_iter o <= max_iter o /\ guard_t s t = false /\ solve_t sel o t s = body sel o t s).
+  (* both guards passed: the offset seeding, then the body on the seeded state *)
+  Lemma linker_solve_t_seeded sel o t s s0 :
+    min_iter o <= max_iter o -> guard_t s t = false -> seed (sel_ids num sel s) o t s = (s0, None) ->
+    solve_t sel o t s = body sel o t s0.
   Proof.
-    unfold Linker.linker_solve_t_M. destruct (max_iter o <? min_iter o) eqn:E; [left; reflexivity|].
-    destruct (guard_t s t) eqn:G; [right; left; reflexivity|]. right; right. repeat split. lia.
+    intros H G E. unfold Linker.linker_solve_t_M. replace (max_iter o <? min_iter o) with false by lia. rewrite G, E. reflexivity.
+  Qed.
+  Lemma linker_solve_t_seed_error sel o t s s' e :
+    min_iter o <= max_iter o -> guard_t s t = false -> seed (sel_ids num sel s) o t s = (s', Some e) ->
+    solve_t sel o t s = (s, LRaise (LExn e)).
+  Proof.
+    intros H G E. unfold Linker.linker_solve_t_M. replace (max_iter o <? min_iter o) with false by lia. rewrite G, E. reflexivity.
+  Qed.
+  Lemma linker_seed_offset0 ids o t s : offset o = 0 -> seed ids o t s = (s, None).
+  Proof. intros H. unfold Linker.linker_seed. rewrite H. reflexivity. Qed.
+  (* ... with offset = 0 the call is its body *)
+  Lemma linker_solve_t_guards_passed sel o t s :
+    min_iter o <= max_iter o -> guard_t s t = false -> offset o = 0 -> solve_t sel o t s = body sel o t s.
+  Proof. intros H G Ho. apply linker_solve_t_seeded; [exact H|exact G|apply linker_seed_offset0; exact Ho]. Qed.
+
+  (* the ways a call can go: rejected by a guard or by the offset test / id validation of the seeding with NOTHING changed,
+     or the body on the (possibly seeded) state *)
+  Lemma linker_solve_t_cases sel o t s :
+    (exists e, (e = ValueError \/ e = IndexError \/ e = KeyError) /\ solve_t sel o t s = (s, LRaise (LExn e))) \/
+    (exists s0, min_iter o <= max_iter o /\ guard_t s t = false /\ seed (sel_ids num sel s) o t s = (s0, None) /\
+                solve_t sel o t s = body sel o t s0).
+  Proof.
+    unfold Linker.linker_solve_t_M. destruct (max_iter o <? min_iter o) eqn:E; [left; exists ValueError; auto|].
+    destruct (guard_t s t) eqn:G; [left; exists IndexError; auto|].
+    destruct (seed (sel_ids num sel s) o t s) as [s0 [e|]] eqn:ES.
+    - left. exists e. split; [|reflexivity]. destruct (linker_seed_error num zero _ _ _ _ _ _ ES) as [_ [->| ->]]; auto.
+    - right. exists s0. repeat split. lia.
   Qed.
 End LGuards.
 
@@ -126,11 +146,88 @@ Section LOffset.
     change (max_iter (set_offset o x)) with (max_iter o). rewrite lloop_set_offset.
     destruct (lloop _ o t _ 1%nat s1 cur) as [s2 st k|s2 e]; reflexivity.
   Qed.
-  Theorem linker_offset_ignored sel o x t s : solve_t sel (set_offset o x) t s = solve_t sel o t s.
+  Notation guard_t s t := (linker_infeasible (c_desc (l_core s)) (length (status (c_st (l_core s)))) t).
+  Notation seed := (linker_seed num zero).
+  Notation seeded := (seeded num zero).
+
+  (* offset = 0: nothing is seeded *)
+  Theorem linker_offset_zero_no_seeding ids o t s : offset o = 0 -> seed ids o t s = (s, None).
+  Proof. apply linker_seed_offset0. Qed.
+
+  (* an offset pointing outside the span: IndexError, nothing changed (as BaseModel.solve_t) — whatever the selection *)
+  Theorem linker_offset_out_of_span_rejected sel o t s p :
+    min_iter o <= max_iter o -> guard_t s t = false -> offset o <> 0 ->
+    py_pos (length (status (c_st (l_core s)))) t = Some p ->
+    (Z.of_nat p + offset o < 0 \/ Z.of_nat (length (status (c_st (l_core s)))) <= Z.of_nat p + offset o) ->
+    solve_t sel o t s = (s, LRaise (LExn IndexError)).
   Proof.
-    unfold Linker.linker_solve_t_M. change (max_iter (set_offset o x)) with (max_iter o). change (min_iter (set_offset o x)) with (min_iter o).
-    rewrite body_offset_ignored. reflexivity.
+    intros Hmm G Ho Hp Hout. eapply linker_solve_t_seed_error; [exact Hmm|exact G|].
+    unfold Linker.linker_seed. replace (offset o =? 0) with false by lia.
+    assert (Htc : (if t <? 0 then t + Z.of_nat (length (status (c_st (l_core s)))) else t) = Z.of_nat p).
+    { unfold py_pos in Hp. destruct (_ || _) eqn:E; [discriminate|]. inversion Hp. destruct (t <? 0) eqn:Et; lia. }
+    rewrite Htc. replace ((Z.of_nat p + offset o <? 0) || (Z.of_nat (length (status (c_st (l_core s)))) <=? Z.of_nat p + offset o)) with true by lia.
+    reflexivity.
   Qed.
+
+  (* an in-span offset with a known selection: the endogenous rows of the linker's core and of every listed submodel take
+     their period-t value from period t + offset (Linker.seeded), and the call then proceeds — get_check_values FIRST —
+     on that seeded state exactly as the offset-free call does *)
+  Theorem linker_offset_seeds sel o t s p :
+    min_iter o <= max_iter o -> guard_t s t = false -> offset o <> 0 ->
+    py_pos (length (status (c_st (l_core s)))) t = Some p ->
+    0 <= Z.of_nat p + offset o < Z.of_nat (length (status (c_st (l_core s)))) ->
+    (forall id, In id (sel_ids num sel s) -> find_sub num id (l_subs s) <> None) ->
+    let s0 := seeded (sel_ids num sel s) p (Z.to_nat (Z.of_nat p + offset o)) s in
+    solve_t sel o t s = body sel o t s0 /\ solve_t sel o t s = solve_t sel (set_offset o 0) t s0.
+  Proof.
+    intros Hmm G Ho Hp Hin Hk s0.
+    assert (ES : seed (sel_ids num sel s) o t s = (s0, None)).
+    { unfold Linker.linker_seed. replace (offset o =? 0) with false by lia.
+      assert (Htc : (if t <? 0 then t + Z.of_nat (length (status (c_st (l_core s)))) else t) = Z.of_nat p).
+      { unfold py_pos in Hp. destruct (_ || _) eqn:E; [discriminate|]. inversion Hp. destruct (t <? 0) eqn:Et; lia. }
+      rewrite Htc. replace ((Z.of_nat p + offset o <? 0) || (Z.of_nat (length (status (c_st (l_core s)))) <=? Z.of_nat p + offset o)) with false by lia.
+      replace (existsb _ (sel_ids num sel s)) with false; [rewrite Hp; reflexivity|].
+      symmetry. apply not_true_is_false. intros E. apply existsb_exists in E as (id & Hi & Hn).
+      specialize (Hk id Hi). destruct (find_sub num id (l_subs s)); [discriminate|contradiction]. }
+    split; [apply (linker_solve_t_seeded num sub absf ltb zero sev pre ebefore eafter post sel o t s s0 Hmm G ES)|].
+    rewrite (linker_solve_t_seeded num sub absf ltb zero sev pre ebefore eafter post sel o t s s0 Hmm G ES).
+    symmetry. rewrite (linker_solve_t_guards_passed num sub absf ltb zero sev pre ebefore eafter post sel (set_offset o 0) t s0);
+      [apply body_offset_ignored|exact Hmm| |reflexivity].
+    unfold s0. cbn [Linker.seeded l_core Linker.seed_comp Linker.with_cvals c_desc c_st status]. exact G.
+  Qed.
+
+  (* what `seeded` is, container by container *)
+  Theorem seeded_core ids p q s :
+    l_core (seeded ids p q s) = with_cvals num (l_core s) (copy_endo num zero (c_desc (l_core s)) (vals_of (c_st (l_core s))) p q) /\
+    l_log (seeded ids p q s) = l_log s.
+  Proof. split; reflexivity. Qed.
+  (* an unselected submodel is not seeded *)
+  Theorem seeded_unselected ids p q s i id c :
+    nth_error (l_subs s) i = Some (id, c) -> selected ids id = false -> nth_error (l_subs (seeded ids p q s)) i = Some (id, c).
+  Proof. intros Hn Hs. cbn [Linker.seeded l_subs]. apply seed_subs_unselected; assumption. Qed.
+  (* a selected submodel (listed once) is: endogenous rows at p copied from q, nothing else *)
+  Lemma seed_subs_selected p q id c : forall ids subs,
+    NoDup ids -> In id ids -> find_sub num id subs = Some c ->
+    find_sub num id (seed_subs num zero ids p q subs) = Some (seed_comp num zero c p q).
+  Proof.
+    induction ids as [|a r IH]; intros subs Hnd Hi Hf; [destruct Hi|]. inversion Hnd as [|? ? Hna Hnd']; subst.
+    cbn [Linker.seed_subs]. destruct Hi as [->|Hi].
+    - rewrite Hf.
+      assert (Hrest : forall subs', find_sub num id subs' = Some (seed_comp num zero c p q) ->
+                      find_sub num id (seed_subs num zero r p q subs') = Some (seed_comp num zero c p q)).
+      { clear - Hna. induction r as [|b r IH]; intros subs' H; cbn [Linker.seed_subs]; [exact H|].
+        assert (Hb : b <> id) by (intros ->; apply Hna; left; reflexivity).
+        destruct (find_sub num b subs') as [x|]; apply IH; try (intros Hx; apply Hna; right; exact Hx); [|exact H].
+        rewrite find_put_other by (intros E; apply Hb; symmetry; exact E). exact H. }
+      apply Hrest. rewrite find_put_same, Hf. reflexivity.
+    - assert (Hne : id <> a) by (intros ->; contradiction).
+      destruct (find_sub num a subs) as [x|]; apply IH; try assumption.
+      rewrite find_put_other by exact Hne. exact Hf.
+  Qed.
+  Theorem seeded_selected ids p q s id c :
+    NoDup ids -> In id ids -> find_sub num id (l_subs s) = Some c ->
+    find_sub num id (l_subs (seeded ids p q s)) = Some (seed_comp num zero c p q).
+  Proof. intros. cbn [Linker.seeded l_subs]. apply seed_subs_selected; assumption. Qed.
 
   (* ---- solve(): the guard, and the fold of solve_t over the periods ---- *)
   Theorem linker_solve_min_gt_max sel o ps s :
@@ -323,6 +420,19 @@ Qed.
 (* no submodels: lags = leads = 0, span as given (default: empty) *)
 Theorem ctor_empty span : linker_ctor_M [] span = Ret (match span with Some sp => sp | None => mkSpan SList [] end, 0, 0).
 Proof. reflexivity. Qed.
+
+(* fix f5ef8bd: a linker whose own name is the identifier of one of its submodels is refused with DuplicateNameError — before
+   the span= test and before the spans are compared; any other name leaves the constructor as described above *)
+Theorem init_rejects_name_clash name subs span : In name (map fst subs) -> linker_init_M name subs span = Raise DuplicateNameError.
+Proof.
+  intros H. unfold linker_init_M. replace (existsb (Nat.eqb name) (map fst subs)) with true; [reflexivity|].
+  symmetry. apply existsb_exists. exists name. split; [exact H|apply Nat.eqb_refl].
+Qed.
+Theorem init_without_clash name subs span : ~ In name (map fst subs) -> linker_init_M name subs span = linker_ctor_M subs span.
+Proof.
+  intros H. unfold linker_init_M. replace (existsb (Nat.eqb name) (map fst subs)) with false; [reflexivity|].
+  symmetry. apply not_true_is_false. intros E. apply existsb_exists in E as (x & Hx & Ex). apply Nat.eqb_eq in Ex. subst. contradiction.
+Qed.
 
 (* ======================= single model wrapped in a linker  vs  the model itself ======================= *)
 Definition lout_of (r : outcome bool) : lout :=
@@ -567,6 +677,7 @@ Section Single.
     assert (Hg : linker_infeasible cd (length cs) t = negb (feasible d (length ms) p)).
     { rewrite (linker_infeasible_pos cd (length cs) t p Hcs). unfold feasible. rewrite Hlg, Hld, Hlen. reflexivity. }
     subst rm rl rejected. unfold Linker.linker_solve_t_M, Solver.solve_t_M.
+    rewrite (linker_seed_offset0 num zero _ o t _ Hoff).
     cbn [l_core core1 c_desc c_st status m0]. rewrite Hg, Hms.
     destruct (max_iter o <? min_iter o) eqn:Emm.
     - cbn [orb fst snd lout_of l_subs l_core core1 c_st status iters vals_of m0]. repeat split.
